@@ -56,6 +56,15 @@ def fnArgs (f : String) : E → List E
   | .fnN g a b => if f = g then fnArgs f a ++ [b] else [.fnN g a b]
   | e => [e]
 
+/-- operands of SymPy's flat n-ary `And` / `Or` (the wire format nests them to the left like `Add`) -/
+def andArgs : E → List E
+  | .and a b => andArgs a ++ [b]
+  | e => [e]
+
+def orArgs : E → List E
+  | .or a b => orArgs a ++ [b]
+  | e => [e]
+
 /-- the `(expr, cond)` pairs of a Piecewise chain -/
 def pieces : E → List Obj
   | .ite c t el => .tup [t, c] :: pieces el
@@ -76,7 +85,9 @@ def args : Obj → List Obj
   | .ex (.fnN f a b) => (fnArgs f (.fnN f a b)).map .ex
   | .ex (.ite c t el) => pieces (.ite c t el)
   | .ex (.deriv v t) => [.ex (.var v), .tup [.var t, .int 1]]
-  | .ex (.rel _ a b) | .ex (.and a b) | .ex (.or a b) => [.ex a, .ex b]
+  | .ex (.rel _ a b) => [.ex a, .ex b]
+  | .ex (.and a b) => (andArgs (.and a b)).map .ex
+  | .ex (.or a b) => (orArgs (.or a b)).map .ex
   | _ => []
 
 /-- `expr.args[1][1]`: the count of the first differentiation variable (the model's `deriv v t` is first order) -/
